@@ -4,6 +4,7 @@ From Coq Require Import ZArith QArith List Bool.
 From RV Require Import Base.Wire Base.Text Lang.PyAst Lang.PySem Gen.SafeCasts Lang.ConstEval Proofs.ConstEvalP Proofs.ConstEvalCostP Proofs.ConstEvalBoundP.
 From RV Require Import Lang.Regex Gen.Regexes Proofs.RegexP Proofs.RegexTableP Gen.SetSites Lang.FoldSession Proofs.FoldSessionP.
 From RV Require Import Lang.VariantCost Proofs.VariantCostP.
+From RV Require Import Lang.NestDepth Proofs.NestDepthP Gen.NestDepth Proofs.NestDepthTableP.
 Import ListNotations.
 Open Scope Z_scope.
 
@@ -298,3 +299,86 @@ Example C11_variant_chain_series :
   n_defs (chain 5 3) = 6%nat /\ length (sigs (vrun true 2000 (chain 5 3))) = 6%nat.
 Proof. exact variant_chain_series. Qed.
 Print Assumptions C11_variant_chain_series.
+
+(* ---------------------------------------------------------------------------------------------------------------------
+   'never crashes with an internal error' over the WHOLE pipeline parse() -> emit(): the interpreter stack.
+   parse() turns its own RecursionError into ValueError (_nesting_as_value_error); emit() recurses over the same block
+   tree without a wrapper.  Lang/NestDepth.v: frames each stage needs on a program tree, from constants per block slot and
+   per simple statement; Gen/NestDepth.v: those constants MEASURED on the current source (deepest frame of the real parse /
+   emit on ladders, linear fit re-checked, fail-closed).  [room] = frames the caller leaves - every theorem holds for every
+   room, i.e. for every recursion limit and every depth of the caller's own stack.
+   --------------------------------------------------------------------------------------------------------------------- *)
+
+(* for EVERY pair of constant tables: when emit's prelude, frames per level and header constants are dominated by parse's,
+   emit needs no more frames than parse on every program tree whose simple statements are thin *)
+Theorem C11_emit_stack_within_parse_stack : forall ps es, blocks_dominated ps es = true ->
+  forall p, (forall l, In l (leaves_of_list p) -> thin ps es l = true) -> need_prog es p <= need_prog ps p.
+Proof. exact prog_dominated. Qed.
+Print Assumptions C11_emit_stack_within_parse_stack.
+
+Theorem C11_accepted_nesting_is_emitted : forall ps es, blocks_dominated ps es = true ->
+  forall room p, (forall l, In l (leaves_of_list p) -> thin ps es l = true) -> fits ps room p = true -> fits es room p = true.
+Proof. exact accepted_fits. Qed.
+Print Assumptions C11_accepted_nesting_is_emitted.
+
+(* the pipeline crashes exactly in the window parse's need <= room < emit's need *)
+Theorem C11_stack_crash_iff_window : forall ps es room p,
+  pipeline ps es room p = 2 <-> (need_prog ps p <= room /\ room < need_prog es p).
+Proof. exact pipeline_crash_iff. Qed.
+Print Assumptions C11_stack_crash_iff_window.
+
+(* the obligation on the CURRENT source (broken by a refactoring that raises emit's frames per level or a header constant) *)
+Theorem C11_emit_frames_dominated_current_source : blocks_dominated parse_stage emit_stage = true.
+Proof. exact nest_blocks_dominated. Qed.
+Print Assumptions C11_emit_frames_dominated_current_source.
+
+(* the simple statements whose emitter branch is deeper than their parser branch are exactly the four of the finding *)
+Theorem C11_fat_statements_pinned : fat_leaves parse_stage emit_stage = known_fat.
+Proof. exact nest_fat_leaves_pinned. Qed.
+Print Assumptions C11_fat_statements_pinned.
+
+(* guard: the program avoids the four fat statements (F-C11-emit-stack-window) *)
+Theorem C11_nesting_never_crashes_emit_partial : forall room p,
+  (forall l, In l (leaves_of_list p) -> (l < length (st_leaf emit_stage))%nat /\ ~ In l known_fat) ->
+  pipeline parse_stage emit_stage room p <> 2.
+Proof. exact nest_pipeline_clean_partial. Qed.
+Print Assumptions C11_nesting_never_crashes_emit_partial.
+
+Theorem C11_accepted_nesting_is_emitted_current_source_partial : forall room p,
+  (forall l, In l (leaves_of_list p) -> (l < length (st_leaf emit_stage))%nat /\ ~ In l known_fat) ->
+  fits parse_stage room p = true -> fits emit_stage room p = true.
+Proof. exact nest_accepted_fits_partial. Qed.
+Print Assumptions C11_accepted_nesting_is_emitted_current_source_partial.
+
+(* without the guard the statement is false on the current source: 75 x `if` around rgb.off(), 80 frames of room *)
+Theorem C11_nesting_never_crashes_emit_refuted : exists room p, pipeline parse_stage emit_stage room p = 2.
+Proof. exact nest_emit_window_refuted. Qed.
+Print Assumptions C11_nesting_never_crashes_emit_refuted.
+
+Example C11_fat_window_is_one_level :
+  pipeline parse_stage emit_stage 80 [ladder 0 74 55] = 0 /\ pipeline parse_stage emit_stage 80 [ladder 0 76 55] = 1.
+Proof. exact nest_window_one_level. Qed.
+Print Assumptions C11_fat_window_is_one_level.
+
+Example C11_nesting_guard_inhabited :
+  pipeline parse_stage emit_stage 80 [ladder 0 75 1; Block 4 [Block 5 [Leaf 6; Leaf 30]; Leaf 19]] = 0
+  /\ pipeline parse_stage emit_stage 80 [ladder 0 76 1] = 1
+  /\ (forall l, In l (leaves_of_list [ladder 0 75 1; Block 4 [Block 5 [Leaf 6; Leaf 30]; Leaf 19]]) ->
+        (l < length (st_leaf emit_stage))%nat /\ ~ In l known_fat).
+Proof. exact nest_guard_inhabited. Qed.
+Print Assumptions C11_nesting_guard_inhabited.
+
+(* NECESSITY, for every pair of tables: one frame more per level than parse, in any slot, crashes on some accepted ladder
+   around any simple statement - so the dominance obligation above is not an artefact of the proof *)
+Theorem C11_extra_frame_per_level_opens_window : forall ps es k l extra,
+  (k < length (st_frames es))%nat -> 0 < extra ->
+  0 <= getz (st_frames ps) k -> getz (st_frames ps) k <= getz (st_frames es) k ->
+  exists d room, pipeline ps (bump_frames es k extra) room [ladder k d l] = 2.
+Proof. exact extra_frame_opens_window. Qed.
+Print Assumptions C11_extra_frame_per_level_opens_window.
+
+(* ... in particular on the current source: a recursive _emit_block call moved into a helper (any of the seven inner slots) *)
+Theorem C11_helper_frame_opens_window_current_source : forall k l extra, (k < 7)%nat -> 0 < extra ->
+  exists d room, pipeline parse_stage (bump_frames emit_stage k extra) room [ladder k d l] = 2.
+Proof. exact nest_helper_frame_opens_window. Qed.
+Print Assumptions C11_helper_frame_opens_window_current_source.
